@@ -1,0 +1,69 @@
+//go:build verif
+
+// Contracts for package loader, read by the verifier in /verif (tqv). Comment-only.
+package loader
+
+// C13 — scope selection: the secret providers (one per secret configuration, in configuration
+// order) are consulted in index order, and the first one that admits the address (nil error,
+// non-nil secret and handler) decides: its secret and handler are returned and no later
+// provider is consulted. ghost.pgets counts SecretProvider.Get calls, ghost.admits the
+// admitting ones (spec/log.spec); lastSecret / lastHandler are auxiliary variables naming the
+// results of the most recent Get call.
+//@ func (l Loader) get(ctx context.Context, providers []tq.SecretProvider, remote net.Addr) (secret []byte, handler tq.Handler, err error)
+//@   requires l.loggerProvider != nil
+//@   requires forall j int :: 0 <= j && j < len(providers) ==> providers[j] != nil
+//@   modifies ghost.admitted, ghost.pgets, ghost.admits, ghost.lastSecret, ghost.lastHandler
+//@   after[C13] SecretProvider.Get : ghost.lastSecret = ret0
+//@   after[C13] SecretProvider.Get : ghost.lastHandler = ret1
+//@   before[C13] SecretProvider.Get : ghost.admits == old(ghost.admits) && arg0 == providers[ghost.pgets - old(ghost.pgets)]
+//@   ensures[C13] err == nil ==> (secret != nil && handler != nil && ghost.admitted == 1 && ghost.admits == old(ghost.admits) + 1)
+//@   ensures[C13] err == nil ==> (handler == ghost.lastHandler && secret == ghost.lastSecret)
+//@   ensures[C13] err != nil ==> (secret == nil && handler == nil && ghost.admits == old(ghost.admits) && ghost.pgets == old(ghost.pgets) + len(providers))
+//@   ensures[C13] ghost.pgets <= old(ghost.pgets) + len(providers)
+//@   loop 1 invariant -1 <= rangeindex && rangeindex < len(providers)
+//@   loop 1 invariant[C13] ghost.pgets == old(ghost.pgets) + rangeindex + 1 && ghost.admits == old(ghost.admits)
+
+// C13 — the address filters. An empty list has no opinion (deny: false, allow: true); an
+// address that is not a TCP address is refused by a non-empty list; otherwise the answer is
+// the result of match (auxiliary variable lastMatch). Which CIDR contains which address is
+// package net's business (ParseCIDR / IPNet.Contains) and is not modelled.
+// (Interfaces holding pointers are assumed to hold non-nil pointers: a global assumption of the generator.)
+//@ func (p prefixFilter) match(addr *net.TCPAddr) (res bool)
+//@   requires addr != nil
+//@   loop 1 invariant 0 <= rangecount
+
+//@ func (p prefixFilter) deny(remote net.Addr) (res bool)
+//@   modifies ghost.lastMatch
+//@   after[C13] prefixFilter.match : ghost.lastMatch = (ret0 ? 1 : 0)
+//@   ensures[C13] len(p.known) < 1 ==> !res
+//@   ensures[C13] (len(p.known) >= 1 && (remote == nil || typeOf(remote) != *net.TCPAddr)) ==> res
+//@   ensures[C13] (len(p.known) >= 1 && remote != nil && typeOf(remote) == *net.TCPAddr) ==> (res == (ghost.lastMatch == 1))
+
+//@ func (p prefixFilter) allow(remote net.Addr) (res bool)
+//@   modifies ghost.lastMatch
+//@   after[C13] prefixFilter.match : ghost.lastMatch = (ret0 ? 1 : 0)
+//@   ensures[C13] len(p.known) < 1 ==> res
+//@   ensures[C13] (len(p.known) >= 1 && (remote == nil || typeOf(remote) != *net.TCPAddr)) ==> !res
+//@   ensures[C13] (len(p.known) >= 1 && remote != nil && typeOf(remote) == *net.TCPAddr) ==> (res == (ghost.lastMatch == 1))
+
+// C13 — one admission query (the goroutine started per query in Loader.updates): the deny
+// filter is consulted first; the allow filter only if the address is not denied; the
+// providers only if it is not denied and is allowed; exactly one answer is sent; a denied or
+// not-allowed address is answered with an error and no secret, no handler, and no provider
+// is consulted for it. denied / allowed are auxiliary variables naming the filters' answers;
+// ghost.lastSent is the value of the most recent channel send.
+//@ func Loader.updates$2()
+//@   requires l != nil && l.loggerProvider != nil && q.remote != nil
+//@   requires prefixAllow != nil
+//@   requires prefixDeny != nil
+//@   requires forall j int :: 0 <= j && j < len(providers) ==> providers[j] != nil
+//@   modifies ghost.sends, ghost.lastSent, ghost.admitted, ghost.pgets, ghost.admits, ghost.lastMatch, ghost.lastSecret, ghost.lastHandler, ghost.denied, ghost.allowed
+//@   after[C13] prefixFilter.deny : ghost.denied = (ret0 ? 1 : 0)
+//@   after[C13] prefixFilter.allow : ghost.allowed = (ret0 ? 1 : 0)
+//@   before[C13] prefixFilter.deny : arg0.known == prefixDeny.known && arg1 == q.remote
+//@   before[C13] prefixFilter.allow : ghost.denied == 0 && arg0.known == prefixAllow.known && arg1 == q.remote
+//@   before[C13] Loader.get : ghost.denied == 0 && ghost.allowed == 1 && arg2 == providers && arg3 == q.remote
+//@   ensures[C13] ghost.sends == old(ghost.sends) + 1
+//@   ensures[C13] ghost.denied == 1 ==> (ghost.pgets == old(ghost.pgets) && ghost.lastSent.err != nil && ghost.lastSent.secret == nil && ghost.lastSent.handler == nil)
+//@   ensures[C13] (ghost.denied == 0 && ghost.allowed == 0) ==> (ghost.pgets == old(ghost.pgets) && ghost.lastSent.err != nil && ghost.lastSent.secret == nil && ghost.lastSent.handler == nil)
+//@   ensures[C13] ghost.lastSent.err == nil ==> (ghost.denied == 0 && ghost.allowed == 1 && ghost.admits == old(ghost.admits) + 1 && ghost.lastSent.secret != nil && ghost.lastSent.handler != nil)
